@@ -41,6 +41,10 @@ def seen_set(workload, ledger):
     return out
 
 
+def commits_in(snaps, s):
+    return 1 + max(x.k for x in snaps if x.step == s.step and x.action == s.action)
+
+
 def inflight_task(action):
     # "d:RunTask:B:t" -> ("B", "t")
     parts = action.split(":")
@@ -49,7 +53,7 @@ def inflight_task(action):
     return None
 
 
-def oracle(workload, adm, ref_ledger, ref_seen, final, pre_ledger, post_ledger, inflight, what):
+def oracle(workload, adm, ref_ledger, ref_seen, final, pre_ledger, post_ledger, inflight, what, ref_final_status=None):
     v = []
     view = final.view
     o = dumps(view.outcome())
@@ -79,8 +83,24 @@ def oracle(workload, adm, ref_ledger, ref_seen, final, pre_ledger, post_ledger, 
             if n > allow:
                 v.append({"kind": "extra-execution", "task": f"{k[0]}#{k[1]}", "count": n, "uninterrupted": rc.get(k, 0),
                           "in_flight_at_crash": [i for i in inflight if i], "sig": "extra-execution"})
+    # attribute the case to a known window / effect so that signatures name the site that matters
+    tag = None
+    crashes = [what] + ([what["second_crash"]] if isinstance(what, dict) and what.get("second_crash") else [])
+    for c in crashes:
+        k = c.get("crash_after_commit", c.get("after_commit"))
+        n = c.get("commits_in_step") or 0
+        # StartStage commits: poll(0) claim(1) [add synthetic stages]* plan(n-3) processor-mark(n-2) ack(n-1)
+        if str(c.get("handling", "")).startswith("d:StartStage") and k is not None and 1 <= k <= max(1, n - 4):
+            tag = "claim-plan-window"
+    ref_status = ref_final_status or {}
+    if tag is None and any(ref_status.get(e["stage"]) == "SKIPPED" for e in full):
+        tag = "revived-skipped-branch"
+    if tag is None and view.wf["status"] == "RUNNING" and any(
+            s["status"] == "RUNNING" and any(t[1] == "REDIRECT" for t in s["tasks"]) for s in view.stages.values()):
+        tag = "stale-redirect-wedge"
     for x in v:
         x["where"] = what
+        x["tag"] = tag
     return v
 
 
@@ -97,6 +117,7 @@ def run_job(job):
                 "job_spec": job, "samples": [["baseline skipped: crash-free outcome under this schedule is not the in-order outcome"]],
                 "baseline_steps": len(base_final.trace), "baseline_executions": len(base_ledger), "baseline_skipped": True}
     ref_seen = seen_set(workload, base_ledger)
+    ref_status = {lab: st["status"] for lab, st in base_final.view.stages.items()}
     if workload.klass != "confluent":
         ref_seen = None
     viols, evals, outcomes = [], 0, collections.Counter()
@@ -114,9 +135,9 @@ def run_job(job):
                 evals += 1
                 infl = [inflight_task(s.action)]
                 where = {"crash_after_commit": s.k, "of_step": s.step, "handling": s.action, "order": order,
-                         "ledger_cut": cut}
+                         "ledger_cut": cut, "commits_in_step": commits_in(snaps, s)}
                 vs = oracle(workload, adm, base_ledger, ref_seen or seen_set(workload, pre + post), final, pre, post,
-                            infl, where)
+                            infl, where, ref_status)
                 outcomes[dumps(final.view.outcome())] += 1
                 viols.extend(vs)
                 if job["pairs"]:
@@ -127,9 +148,11 @@ def run_job(job):
                             evals += 1
                             infl2 = infl + [inflight_task(s2.action)]
                             where2 = dict(where, second_crash={"after_commit": s2.k, "of_step": s2.step,
-                                                               "handling": s2.action})
+                                                               "handling": s2.action,
+                                                               "commits_in_step": commits_in(snaps2, s2)})
                             vs2 = oracle(workload, adm, base_ledger,
-                                         ref_seen or seen_set(workload, pre2 + post2), final2, pre2, post2, infl2, where2)
+                                         ref_seen or seen_set(workload, pre2 + post2), final2, pre2, post2, infl2, where2,
+                                         ref_status)
                             outcomes[dumps(final2.view.outcome())] += 1
                             viols.extend(vs2)
         points.append(f"{s.step}.{s.k}:{s.action}")
@@ -138,8 +161,9 @@ def run_job(job):
     # collapse duplicates by signature + handling
     out, seen_sig = [], set()
     for v in viols:
-        h = (v.get("where") or {}).get("handling", "")
-        hk = ":".join(h.split(":")[:2])
+        w_ = v.get("where") or {}
+        h = (w_.get("second_crash") or w_).get("handling", "")
+        hk = v.get("tag") or ":".join(h.split(":")[:2])
         sig = f"e2:{v['sig']}@{hk}"
         v["signature"] = sig
         if sig in seen_sig:
